@@ -67,6 +67,15 @@ def bounds(tier):
             'determinism': 'every list trained twice in-process; %d lists in three subprocesses (PYTHONHASHSEED 1, 2, 3)' % (4 if tier == 'quick' else 12)}
 
 
+def lower_ref(s):
+    """Reference lower-casing of a word: str.lower(), except that characters whose lower case is longer than one character
+    (U+0130) are kept, so that a word and its capitalisation mask keep the length of the section."""
+    low = s.lower()
+    if len(low) == len(s):
+        return low
+    return ''.join(c.lower() if len(c.lower()) == 1 else c for c in s)
+
+
 def mask_of(s):
     return ''.join('U' if ch.isupper() else 'L' for ch in s)
 
@@ -82,7 +91,7 @@ def tally(seg_items, lines):
             labels.append(lab)
             t['prince'][lab] += 1
             if k == 'A':
-                t['A'].setdefault(len(val), Counter())[val.lower()] += 1
+                t['A'].setdefault(len(val), Counter())[lower_ref(val)] += 1
                 t['C'].setdefault(len(val), Counter())[mask_of(val)] += 1
             elif k in 'DOK':
                 t[k].setdefault(len(val), Counter())[val] += 1
